@@ -9,6 +9,7 @@
    harness/c19.go (see design.d/C19.md). *)
 From KV Require Import Edit.Cmd Edit.CmdProofs Edit.LawsProofs Edit.FixProofs Edit.FixPipe.
 From KV Require Import Res.Pipeline Res.PipelineProofs.
+From KV Require Res.PipelinePatchProofs.
 Local Open Scope list_scope.
 
 (* load-time spellings: a kustomization and its hand-rewritten form (bases appended to resources,
@@ -102,19 +103,22 @@ Print Assumptions C19_fix_failure_writes_nothing.
 
 (* ---- `edit fix` preserves the BUILD (over the integrated pipeline model Res/Pipeline.v) ----
    Full statement of the property: build (fix T) = build T for every tree whose patches address disjoint
-   fields.  Proved part (hence _partial): the layer being fixed uses only directives the pipeline model
-   has — namespace, namePrefix, nameSuffix, labels (without custom `fields:`), commonLabels,
-   commonAnnotations, literal-only configMap/secret generators (no immutable), generatorOptions; the
-   layers BELOW it are arbitrary trees of the pipeline model.  [to_pdirs k = Some d] is exactly that guard.
-   Not covered (no patch / image transformers in the pipeline model): patchesStrategicMerge,
-   patchesJson6902 -> patches; they stay with the bytewise build oracle of harness/c19.go.
-   fix_premarshal is the Edit/Fix.v function that the `edit fix` correspondence compares with the real
-   command on every run; the load-time spellings (bases, imageTags, env) give the same record before the
-   build starts (C19_load_spellings), i.e. the same tree. vars are not touched by fix without --vars. *)
+   fields.  Proved part (hence _partial): the layer being fixed uses only directives the pipeline model has —
+   namespace, namePrefix, nameSuffix, labels (without custom `fields:`), commonLabels, commonAnnotations,
+   literal-only configMap/secret generators (no immutable), generatorOptions, replicas, images and
+   strategic-merge `patches:` entries (through the loader L: Edit/Kust.v keeps patch texts opaque) — and has NO
+   patchesStrategicMerge / patchesJson6902; the layers BELOW it are arbitrary trees of the pipeline model.
+   [to_pdirs L F k = Some d] is exactly that guard.
+   The guard on patchesStrategicMerge is needed, not just unproved: C19_fix_patch_spelling_refuted (finding
+   PIPE/patch-spelling).  The pipeline model has no transformer for the two deprecated patch fields, so the
+   positive half for patches without metadata maps stays with the bytewise build oracle of harness/c19.go.
+   fix_premarshal is the Edit/Fix.v function that the `edit fix` correspondence compares with the real command
+   on every run; the load-time spellings (bases, imageTags, env) give the same record before the build starts
+   (C19_load_spellings), i.e. the same tree. *)
 Theorem C19_fix_preserves_build_partial :
-  forall nonstr o n ents readable k k' d,
-    to_pdirs k = Some d -> fix_premarshal readable k = Ok k' ->
-    exists d', to_pdirs k' = Some d' /\
+  forall (L : patch -> option ppatch) (F : Z -> string) nonstr o n ents readable k k' d,
+    to_pdirs L F k = Some d -> fix_premarshal readable k = Ok k' ->
+    exists d', to_pdirs L F k' = Some d' /\
                build nonstr o (PDir n d' ents) = build nonstr o (PDir n d ents).
 Proof. exact fix_preserves_build. Qed.
 Print Assumptions C19_fix_preserves_build_partial.
@@ -122,8 +126,8 @@ Print Assumptions C19_fix_preserves_build_partial.
 (* the tie between the two models: on the pipeline's directives FixKustomizationPreMarshalling is the
    respelling of Res/PipelineProofs.v *)
 Theorem C19_fix_is_respell :
-  forall readable k k' d,
-    to_pdirs k = Some d -> fix_premarshal readable k = Ok k' -> to_pdirs k' = Some (respell d).
+  forall (L : patch -> option ppatch) (F : Z -> string) readable k k' d,
+    to_pdirs L F k = Some d -> fix_premarshal readable k = Ok k' -> to_pdirs L F k' = Some (respell d).
 Proof. exact to_pdirs_fix. Qed.
 Print Assumptions C19_fix_is_respell.
 
@@ -134,3 +138,15 @@ Theorem C19_respell_layer_preserves_build :
   forall nonstr o n d ents, build nonstr o (PDir n (respell d) ents) = build nonstr o (PDir n d ents).
 Proof. exact build_respell_layer. Qed.
 Print Assumptions C19_respell_layer_preserves_build.
+
+(* patchesStrategicMerge -> target-less `patches:` is NOT build-preserving in general: a targeted entry (which
+   takes the resWrangler.ApplySmPatch path of the deprecated field) and the target-less entry `edit fix` writes
+   give different labels on w-pipe's witness tree (`keep: null` deletes vs becomes the string "null") *)
+Theorem C19_fix_patch_spelling_refuted :
+  Res.PipelinePatchProofs.labels_of
+    (build (fun s => String.eqb s "1") PSortNone (Res.PipelinePatchProofs.spelling_tree None)) <>
+  Res.PipelinePatchProofs.labels_of
+    (build (fun s => String.eqb s "1") PSortNone
+           (Res.PipelinePatchProofs.spelling_tree (Some Res.PipelinePatchProofs.kind_only))).
+Proof. exact fix_patch_spelling_refuted. Qed.
+Print Assumptions C19_fix_patch_spelling_refuted.
